@@ -13,7 +13,7 @@ for d in sorted(os.listdir(f"{V}/seeded")):
     checks = [pid] + RELATED.get(pid, [])
     out = subprocess.run([f"{V}/bin/seedrun.sh", d, f"{V}/seeded/{d}/patch.diff"] + checks, capture_output=True, text=True).stdout
     res = {}
-    for m in re.finditer(r"SEED \S+ check=(\S+) rc=(\d+) violation_lines=(\d+)\s*(.*)", out):
+    for m in re.finditer(r"SEED \S+ check=(\S+) rc=(\d+) violation_lines=(\d+)[ \t]*(.*)", out):
         res[m.group(1)] = {"rc": int(m.group(2)), "violation_lines": int(m.group(3)), "first_clause": m.group(4)[:160]}
     notes = open(f"{V}/seeded/{d}/notes.md").read()
     meta = {"seed": d, "breaks_property": pid,
